@@ -1,9 +1,9 @@
 #!/bin/bash
 # tools_tryseed.sh <seed-id> [check-id] [tier] — apply one stored seeded change to a scratch worktree of
 # /repo HEAD, run a check against it (VERIF_REPO/VERIF_OUT), remove the worktree.  Does not touch
-# /repo, /verif/evidence or seeded/results.json.
+# /repo, /verif/evidence or seeded/results.json.  SEED_DIR=<dir with patch.diff> tries a change that is not stored yet.
 S="$1"; C="${2:-${S%%-*}}"; T="${3:-quick}"
-D=/verif/seeded/$S
+D=${SEED_DIR:-/verif/seeded/$S}
 P=$D/patch.diff; [ -f $D/patch.rebased.diff ] && P=$D/patch.rebased.diff
 W=/tmp/try/$S.$$
 mkdir -p /tmp/try
